@@ -6615,11 +6615,11 @@ BD_Shape<T>::expand_space_dimension(Variable var, dimension_type m) {
 
   // The space dimension of the resulting BDS should not
   // overflow the maximum allowed space dimension.
-  if (m > max_space_dimension() - space_dimension()) {
-    throw_invalid_argument("expand_dimension(v, m)",
-                           "adding m new space dimensions exceeds "
-                           "the maximum allowed space dimension");
-  }
+  check_space_dimension_overflow(m, max_space_dimension() - space_dimension(),
+                                 "PPL::BD_Shape::",
+                                 "expand_space_dimension(v, m)",
+                                 "adding m new space dimensions exceeds "
+                                 "the maximum allowed space dimension");
   // Nothing to do, if no dimensions must be added.
   if (m == 0) {
     return;
